@@ -293,6 +293,13 @@ func (g *run) chain(b0 string, refs []string) {
 			return
 		}
 		want := rfcResolve(spec, r)
+		if t := rfcResolveParts(spec, r); !t.hasAuthority && strings.HasPrefix(t.path, "//") {
+			// RFC 3986's own ambiguity: a target without authority whose path starts with "//" reads back as an
+			// authority. The string-level spec and a structure-keeping implementation legitimately part ways after
+			// such a step, so the chain is not continued (the step itself is still judged by the pair oracle).
+			g.rep.Count("chain:ended-ambiguous-target")
+			return
+		}
 		hist := fmt.Sprintf("chain %q <- %q, step %d: base=%q ref=%q", b0, refs[:k], k+1, spec, r)
 		next, err := cur.Parse(r)
 		got := "err-ref"
@@ -310,7 +317,15 @@ func (g *run) chain(b0 string, refs []string) {
 		}
 		g.rep.Count("chain:step-ok")
 		// a chain result must behave like the freshly parsed string it prints as
-		if fresh, err := iri.ParseIRI(want); err == nil {
+		freshKnownBad := false // the fresh parse of this string is itself inside a known single-IRI class
+		for _, c := range classify("iri.parse", want, "") {
+			if _, ok := g.known[c]; ok {
+				freshKnownBad = true
+			}
+		}
+		if freshKnownBad {
+			g.rep.Count("chain:state-check-skipped-known-class")
+		} else if fresh, err := iri.ParseIRI(want); err == nil {
 			ff1, _ := iri.VerifFlags(next)
 			ff2, _ := iri.VerifFlags(fresh)
 			stickyNow := sticky || strings.HasSuffix(r, "#")
@@ -318,7 +333,7 @@ func (g *run) chain(b0 string, refs []string) {
 				g.rep.Add(vh.Case{Kind: "disagreement", Op: op, Go: fmt.Sprintf("opaque=%v forceFragment=%v", effOpaque(next), ff1),
 					Model: fmt.Sprintf("opaque=%v forceFragment=%v", effOpaque(fresh), ff2),
 					Detail: hist + ": private state of the chain result differs from ParseIRI of its String() " + fmt.Sprintf("%q", want)})
-				return
+				// the chain goes on: a different String() downstream is the property violation
 			}
 		}
 		sticky = sticky || strings.HasSuffix(r, "#")
